@@ -62,7 +62,7 @@ def oracle_c01(ctx, case, impl_line, spec_line, strict_rejects=True):
     return None
 
 
-def gen_cases(ctx, n, nops_lo, nops_hi, big_cache=True, small_cache=False, restarts=0, p_reject=0.0, finals=FINAL, partial_batches=True):
+def gen_cases(ctx, n, nops_lo, nops_hi, big_cache=True, small_cache=False, restarts=0, p_reject=0.0, finals=FINAL, partial_batches=True, term_jump_purges=False):
     """K-seq runs in lock step with the worker (wait_worker_idle after every call), which is
     deterministic only if the worker cannot run in the middle of a call: a multi-entry
     append that rotates a chunk hands requests to the worker while it is still appending.
@@ -77,7 +77,7 @@ def gen_cases(ctx, n, nops_lo, nops_hi, big_cache=True, small_cache=False, resta
         nr = rnd.randint(1, restarts) if restarts else 0
         cfgs = [gen.rand_cfg(rnd, big_cache=big_cache, small_cache=small_cache) for _ in range(nr)]
         rot = any(gen.cfg_rotates(c) for c in [cfg] + cfgs)
-        ops, st, sim = gen.gen_history(rnd, nops, p_reject=p_reject, max_batch=1 if rot else 4, partial_batches=partial_batches)
+        ops, st, sim = gen.gen_history(rnd, nops, p_reject=p_reject, max_batch=1 if rot else 4, partial_batches=partial_batches, index_limit_rejects=True, term_jump_purges=term_jump_purges)
         for k, v in st.items():
             ctx.count("ops_" + k, v)
         # restarts with a freshly drawn configuration: flush first (clean restart)
@@ -215,7 +215,7 @@ def run_C15(ctx):
     core.builds()
     n = ctx.scale(400, 4000)
     base = gen_cases(ctx, n, 5, ctx.scale(50, 200), big_cache=False, small_cache=True, p_reject=0.1, restarts=2,
-                     finals=["F 1", "I", "G", "H", "E", "G", "H"])
+                     finals=["F 1", "I", "G", "H", "E", "G", "H"], term_jump_purges=True)
     # bulk: far more entries than the limit become evictable in ONE step (a long chunk is
     # closed and synced), then one more insert has to bring the cache back under its limit
     rnd = ctx.rnd
@@ -497,6 +497,17 @@ def run_C11(ctx):
                 ol[pos + 1:pos + 1] = ["F 1", "I", "X " + cfg]
             cases[k] = head + "| " + " ; ".join(ol)
             ctx.count("restarts_same_limits")
+    # a dump of the live store abandoned after a few items, at idle points in the middle of the
+    # history: the journal must go on exactly as without it
+    for k, c in enumerate(cases):
+        if rr.random() < 0.4:
+            head, ops = c.split("|", 1)
+            ol = [o.strip() for o in ops.split(";") if o.strip()]
+            idle = [i for i, o in enumerate(ol[:-6]) if o == "I"]
+            for pos in sorted(rr.sample(idle, min(len(idle), rr.randint(1, 3))), reverse=True):
+                ol[pos + 1:pos + 1] = ["WA %d" % rr.choice([0, 1, 2, 3, 5])]
+            cases[k] = head + "| " + " ; ".join(ol)
+            ctx.count("aborted_dumps")
     impl, model = seq_run(ctx, cases)
     bad = 0
     for c, a in zip(cases, impl):
@@ -547,6 +558,20 @@ def run_C11(ctx):
     # file could not be created) and the writes that followed: judged on the implementation alone
     import p_trace, p_recover
     fcases = p_trace.failed_rotation_cases(ctx.rnd, ctx.scale(10, 60), ["snap"])
+    # ... and with flushed data still queued for the worker (held) when a chunk fills up and
+    # is rotated, and when the next one does: the records must lie in the files in call order
+    for j in range(ctx.scale(10, 60)):
+        R = ctx.rnd.choice([3, 4, 5])
+        cfg = "100000 1073741824 %d 1073741824 1 64" % R
+        n = ctx.rnd.randint(R, 3 * R)
+        items = []
+        for i in range(n):
+            items.append("A 1 %d x%02x%02x" % (i, i, j & 0xFF))
+            if ctx.rnd.random() < 0.5:
+                items.append(ctx.rnd.choice(["F 1", "F 0"]))           # not followed by any worker step
+            if ctx.rnd.random() < 0.15:
+                items.append("w 1")
+        fcases.append("TRACE %s | %s" % (cfg, " ; ".join(items + ["F 1", "wi", "snap"])))
     flogs = p_trace.run_traces(fcases, ctx.wd, "c11c")
     badf = 0
     for c, l in zip(fcases, flogs):
@@ -578,6 +603,12 @@ def run_C11(ctx):
                     t = e.split()
                     if (int(t[3]), int(t[4])) not in bounds:
                         why = why or "the segment (%s,%s) returned by `%s` is not a record of the journal on disk" % (t[3], t[4], call[:40])
+                    elif call[0] == "A" and len(call.split()) == 4:
+                        # ... and it is THAT record
+                        ct = call.split()
+                        rec = [r for fid, data, rs in files for (r, o, ln) in rs if (fid + o, ln) == (int(t[3]), int(t[4]))]
+                        if rec and not (rec[0][0] == "A" and rec[0][1] == (int(ct[1]), int(ct[2]))):
+                            why = why or "the segment (%s,%s) returned by `%s` holds another record: %s" % (t[3], t[4], call[:40], str(rec[0])[:80])
         if why:
             badf += 1
             if badf <= 3:
